@@ -1,5 +1,6 @@
 From Coq Require Import Extraction ExtrOcamlBasic List NArith.
-From BioVerif Require Import Lib.Conv Model.BMPCodec Model.BMPRouter.
+From BioVerif Require Import Lib.Conv Model.BMPCodec Model.BMPRouter Model.BMPStack.
 Extraction Language OCaml.
 Extraction "c28_model.ml" conv_anchor recv decode process cleanup serve step run init observe
-  table view disposed len bmp_contributing_asns bmp_contributing_cluster_ids.
+  table view disposed len bmp_contributing_asns bmp_contributing_cluster_ids
+  stack_open_decode stack_upd_apply stack_alloc.
